@@ -1210,4 +1210,6 @@ def r79m(F):
     return r
 
 
-RULES = [r14, r14v, r15, r15p, r16, r16m, r17, r17b, r79, r79t, r79m, c02.r8]
+from . import c11 as _c11
+
+RULES = [r14, r14v, r15, r15p, r16, r16m, r17, r17b, r79, r79t, r79m, c02.r8, _c11.r72]
